@@ -1246,11 +1246,11 @@ Variable G : engine.
 Variable dumps : pyv -> string.            (* json.dumps *)
 Variable loads : string -> option pyv.     (* json.loads *)
 
-(* convert_model(model, 'generic'): a new Model from the listed attributes -- value_type is not
-   among them and falls back to the constructor default *)
+(* convert_model(model, 'generic'): a new Model from the listed attributes (all the modelled ones,
+   value_type included since 7115d86; the format specific internals are not carried over) *)
 Definition generic_convert (m : model G) : model G :=
   mkModel G (m_name G m) (m_description G m) (m_parameters G m) (m_rvs G m) (m_statements G m) (m_steps G m)
-          (m_datainfo G m) "PREDICTION" (m_depvars G m) (m_obstrans G m) (m_iie G m).
+          (m_datainfo G m) (m_value_type G m) (m_depvars G m) (m_obstrans G m) (m_iie G m).
 (* Model.code: d = to_dict(); d['__magic__'] = ...; d['__version__'] = ...; json.dumps(d) *)
 Definition magic_items (version : string) : list (pkey * pyv) :=
   [(KStr "__magic__", PStr "Pharmpy Model"); (KStr "__version__", PStr version)].
